@@ -11,6 +11,15 @@ from concurrent.futures import ThreadPoolExecutor
 
 ENV = dict(os.environ, GOFLAGS="-mod=mod", GOPROXY="off", GOSUMDB="off", GOTOOLCHAIN="local")
 
+# what was still broken in /repo at the commit a change was written against, and
+# which workload features must stay off there so that the base's own defects are
+# not credited to the seeded change
+BASES = {
+    "252b0c5": {"VERIF_KNOWN_FILE": "/verif/seeded/known_at_252b0c5.json", "VERIF_NO_RACE": "1", "VERIF_C10_BASE252": "1"},
+    "41a08ec": {"VERIF_KNOWN_FILE": "/verif/seeded/known_at_252b0c5.json", "VERIF_NO_RACE": "1", "VERIF_C10_BASE252": "1"},
+    "210ba83": {"VERIF_KNOWN_FILE": "/verif/seeded/known_at_210ba83.json"},
+}
+
 def one(d):
     name = os.path.basename(d)
     meta = json.load(open(d + "/meta.json"))
@@ -34,7 +43,7 @@ def one(d):
         r = subprocess.run(f"git -C /repo worktree add --detach {wt} {base} && git -C {wt} apply {d}/patch.diff", shell=True, capture_output=True, text=True)
         if r.returncode != 0:
             return name, "patch-does-not-apply", r.stderr[-200:]
-        extra = {"VERIF_KNOWN_FILE": "/verif/seeded/known_at_252b0c5.json", "VERIF_NO_RACE": "1", "VERIF_C10_BASE252": "1"}
+        extra = BASES.get(base, BASES["252b0c5"])
     try:
         env = dict(ENV, VERIF_REPO_DIR=wt, VERIF_OUT_DIR=out, **extra)
         r = subprocess.run(f"./check {pid} quick", shell=True, cwd="/verif", env=env, capture_output=True, text=True, timeout=1200)
